@@ -866,6 +866,36 @@ func c01L6(thorough bool, e func(func() c01Case), b map[string]any) {
 			n += 2
 		}
 	}
+	// module constants holding an object / an array: every write-through form × observation,
+	// within one request (evaluated twice) and across requests
+	oconsts := []c01Const{{Name: "O", Val: nObj("k", nInt(1), "m", nInt(2))}, {Name: "A", Val: nArr(nInt(1), nInt(2))}}
+	owrites := [][]*c01N{
+		bl(sFset("O.k", nInt(5))),
+		bl(sDecl("r", nCall("set", nVar("O"), nStr("k"), nInt(5)))),
+		bl(sDecl("r", nCall("set", nVar("O"), nStr("n"), nInt(5)))),
+		bl(sDecl("r", nCall("remove", nVar("O"), nStr("k")))),
+		bl(sIset(true, nIndex(nVar("A"), nInt(0)), nInt(9))),
+		bl(sIset(false, nIndex(nVar("A"), nInt(0)), nInt(9))),
+		bl(sDecl("r", nCall("append", nVar("A"), nInt(3)))),
+		bl(sDecl("r", nBin("+", nVar("A"), nArr(nInt(3))))),
+		bl(sDecl("r", nCall("reverse", nVar("A")))),
+		bl(sDecl("r", nCall("sort", nVar("A")))),
+		bl(sDecl("q", nVar("O"))), // an alias only (control)
+		bl(sDecl("q", nVar("O")), sFset("q.k", nInt(5))), // write through a local alias
+		bl(sDecl("q", nVar("A")), sIset(true, nIndex(nVar("q"), nInt(0)), nInt(9))),
+	}
+	oobserves := []*c01N{sRet(nVar("O")), sRet(nVar("A")), sRet(nCall("length", nVar("A")))}
+	for _, w := range owrites {
+		for _, ob := range oobserves {
+			e(func() c01Case {
+				return c01Case{Layer: "L6", P: "a", Prog: c01Prog{Consts: oconsts, Routes: [][]*c01N{append(cloneList(w), ob)}}}
+			})
+			e(func() c01Case {
+				return c01Case{Layer: "L6", P: "a", Prog: c01Prog{Consts: oconsts, Routes: [][]*c01N{append(cloneList(w), sRet(nInt(0))), bl(ob)}}}
+			})
+			n += 2
+		}
+	}
 	// ordinary locals never survive a request
 	for _, first := range [][]*c01N{bl(sDecl("q", nInt(1)), sRet(nInt(0))), bl(sDecl("q", nArr(nInt(1))), sRet(nVar("q")))} {
 		for _, second := range [][]*c01N{bl(sRet(nVar("q"))), bl(sDecl("q", nInt(2)), sRet(nVar("q"))), bl(sSet("q", nInt(2)), sRet(nVar("q")))} {
@@ -1061,7 +1091,7 @@ func c01L6(thorough bool, e func(func() c01Case), b map[string]any) {
 			n++
 		}
 	}
-	b["L6_scoping_aliasing"] = fmt.Sprintf("callee/caller locals (8 bodies × 2 signatures × 7 call contexts, call and pipe form), writes to module-level names (7 forms × 3 positions × 3 observations, same request and next request, also through a callee), path parameter and implicit variables, 3-level declaration/update/read placement × 2 update forms × 4 block kinds, all sequences of ≤ %d operations over an 11-operation array-aliasing alphabet and an 8-operation object alphabet, index-assignment forms: %d cases", maxLen, n)
+	b["L6_scoping_aliasing"] = fmt.Sprintf("callee/caller locals (8 bodies × 2 signatures × 7 call contexts, call and pipe form), writes to module-level names (7 forms × 3 positions × 3 observations, same request and next request, also through a callee), write-through forms on constants holding an object / array (13 forms incl. through a local alias × 3 observations, same and next request), path parameter and implicit variables, 3-level declaration/update/read placement × 2 update forms × 4 block kinds, all sequences of ≤ %d operations over an 11-operation array-aliasing alphabet and an 8-operation object alphabet, index-assignment forms: %d cases", maxLen, n)
 }
 
 // ---- L7: determinism of object iteration ---------------------------------------------
